@@ -576,6 +576,86 @@ fn real_parse(text: &[u8]) -> RealParse
 	}
 }
 
+/// The real iterator call by call: `next()` until it returns `None`, then two more calls — i.e. (number of
+/// items) + 3 calls in all — each result in canonical form (`none` for `None`). Returns the text and the
+/// number of calls made.
+fn real_calls(text: &[u8]) -> (String, usize)
+{
+	let r = guarded(||
+	{
+		let mut out: Vec<String> = Vec::new();
+		let mut p = Parser::new(text);
+		let mut extra = 0;
+		while extra < 3 && out.len() < 100_000
+		{
+			match p.next()
+			{
+				None => {out.push("none".to_owned()); extra += 1;},
+				Some(Ok(e)) =>
+				{
+					// an item after a `None` is recorded like any other; the count of trailing calls restarts
+					extra = 0;
+					out.push(match &e.value
+					{
+						ElementValue::Label(n) => format!("L {} {} {}", e.line, e.col, hexs(n.as_bytes())),
+						ElementValue::Directive{name, args} => format!("D {} {} {} {}", e.line, e.col, hexs(name.as_bytes()), canon_args(args)),
+						ElementValue::Instruction{name, args} => format!("I {} {} {} {}", e.line, e.col, hexs(name.as_bytes()), canon_args(args)),
+					});
+				},
+				Some(Err(e)) =>
+				{
+					extra = 0;
+					out.push(match &e.value
+					{
+						ParseErrorKind::Token(t) => format!("E {} {} tok {} {} {}", e.line, e.col, kind_code(&t.value), t.line, t.col),
+						ParseErrorKind::Expected{have, expect} => format!("E {} {} exp {} {}", e.line, e.col, expect, have),
+						k => format!("E {} {} unknown:{k:?}", e.line, e.col),
+					});
+				},
+			}
+		}
+		out
+	});
+	match r
+	{
+		Ok(out) => {let n = out.len(); (out.join(" | "), n)},
+		Err(_) => ("PANIC".to_owned(), 0),
+	}
+}
+
+/// `model.parse.next`: the call-by-call model (`Parse.next`, with the tokenizer's look-ahead and the drain
+/// after an error) against the real iterator, for (items + 3) calls
+pub fn check_calls(cx: &mut Cx, texts: &[&[u8]])
+{
+	let mut lines: Vec<String> = Vec::new();
+	let mut reals: Vec<(String, String)> = Vec::new();
+	for text in texts
+	{
+		let lx = match real_lex(text) {Ok(l) => l, Err(_) => continue};
+		let (real, n) = real_calls(text);
+		if n == 0 {continue;}   // a panic of the real parser is reported by the `model.parse.all` comparison
+		let req = model_request(&lx);
+		lines.push(format!("parse calls {n} {}", &req["parse toks ".len()..]));
+		reals.push((format!("calls {}", hex(text)), real));
+	}
+	let replies = cx.model.ask_many(&lines);
+	for ((input, real), reply) in reals.iter().zip(replies.iter())
+	{
+		cx.report.cases(1);
+		cx.report.hit("calls: real iterator vs call-by-call model, items + 3 calls");
+		cx.report.compare("model.parse.next", input, reply, real);
+		// the shape itself, on the implementation: after the first non-element nothing but `none`
+		let items: Vec<&str> = real.split(" | ").collect();
+		if let Some(first) = items.iter().position(|x| !(x.starts_with("L ") || x.starts_with("D ") || x.starts_with("I ")))
+		{
+			if items[first + 1..].iter().any(|x| *x != "none")
+			{
+				cx.report.oracle_fail(input.clone(), format!("the iterator yields something after an error or after None: [{real}]"));
+			}
+		}
+	}
+}
+
 // ---------------------------------------------------------------------------------------------------
 // cases
 
@@ -626,6 +706,9 @@ fn run_cases(cx: &mut Cx, cases: &[Case])
 		{
 			check_case(cx, c, lx, reply);
 		}
+		// a sample goes through the call-by-call model as well (every 4th case, and every hand-picked error site / replay)
+		let sample: Vec<&[u8]> = chunk.iter().enumerate().filter(|(i, c)| i % 4 == 0 || c.bucket.starts_with("ill: hand") || c.bucket == "replay").map(|(_, c)| &c.text[..]).collect();
+		check_calls(cx, &sample);
 	}
 }
 
@@ -1061,6 +1144,8 @@ with up to 3 operators [quick: plus a 1/14 slice of the 4-operator trees; thorou
 [thorough: ..1100] of each bracket kind and of unary operators, 40..520 calls/brackets side by side in one list, programs of 40..520 statements read by one parser, (5) the same with redundant \
 parentheses around random sub-expressions, (6) ill-formed inputs: token soup, token mutations, truncations, byte mutations. Oracle on the implementation \
 for (1)-(5): the parsed statements equal the generated ones (kind, name, argument trees in order) and each element's position is its first token's. \
+model.parse.next: for every 4th input of each group and every hand-picked error site, the real iterator called (items + 3) times against the call-by-call model \
+(Parse.next with the tokenizer's look-ahead and the drain after an error); oracle: nothing but None after the first error or None. \
 model.parse.render: the Lean rendering specification equals the harness renderer on every generated tree. \
 non-trivial = at least one element or an error after more than one token; distinct = distinct canonical outcomes (positions included)".to_owned();
 
@@ -1232,7 +1317,7 @@ fn replay(cx: &mut Cx, input: &str)
 			}
 			else {cx.report.oracle_fail(input, "unrecognised replay input");}
 		},
-		["ill", text] =>
+		["ill", text] | ["calls", text] =>
 		{
 			let text = unhex(text).unwrap_or_default();
 			run_cases(cx, &[Case{text, expect: None, bucket: "replay"}]);
